@@ -65,12 +65,12 @@ def build_harness():
 
 
 # ------------------------------------------------------------------------------------------- TLC
-def tlc_cfg(src, dst, subst):
+def tlc_cfg(src, dst, subst, optional=("WatchNames", "Dev", "OracleDev")):
     """copy a .cfg replacing  NAME = value  lines"""
     txt = open(src).read()
     for k, v in subst.items():
         txt, n = re.subn(r"(?m)^(\s*%s\s*=\s*).*$" % re.escape(k), lambda m: m.group(1) + v, txt)
-        if n == 0:
+        if n == 0 and k not in optional:
             raise Infra("cfg %s has no constant %s" % (src, k))
     open(dst, "w").write(txt)
 
@@ -117,7 +117,7 @@ def design_check(spec, workdir, tier, dev, watch="{}"):
     """exhaustive TLC run of a bounded model; returns dict(states, transitions, wall, cfg)"""
     src = os.path.join(SPEC, spec["cfg"])
     dst = os.path.join(workdir, os.path.basename(src))
-    subst = {"Dev": dev_value(dev), "WatchNames": watch}
+    subst = {"Dev": dev_value(dev), "OracleDev": dev_value(dev), "WatchNames": watch}
     subst.update(spec.get(tier, {}))
     tlc_cfg(src, dst, subst)
     rc, txt, dt, out = tlc(spec["module"], dst, workdir, spec.get("timeout", 600))
@@ -146,7 +146,7 @@ def simulate_scripts(spec, workdir, tier, dev, seed, watch="{}"):
     """TLC simulation mode: one JSON script per behaviour"""
     src = os.path.join(SPEC, spec["cfg"])
     dst = os.path.join(workdir, os.path.basename(src))
-    subst = {"Dev": dev_value(dev), "WatchNames": watch}
+    subst = {"Dev": dev_value(dev), "OracleDev": dev_value(dev), "WatchNames": watch}
     subst.update(spec.get(tier, {}))
     tlc_cfg(src, dst, subst)
     outdir = os.path.join(workdir, "scripts-" + os.path.basename(src))
@@ -236,7 +236,7 @@ def replay(vh, scripts, workdir, name="trace", digest=False):
 
 def validate(trace, workdir, dev, name="trace", module="Trace.tla", cfgname="Trace.cfg"):
     dst = os.path.join(workdir, name + "." + cfgname)
-    tlc_cfg(os.path.join(SPEC, cfgname), dst, {"Dev": dev_value(dev)})
+    tlc_cfg(os.path.join(SPEC, cfgname), dst, {"Dev": dev_value(dev), "OracleDev": dev_value(dev)})
     rep = os.path.join(workdir, name + ".report.json")
     if os.path.exists(rep):
         os.remove(rep)
@@ -290,7 +290,14 @@ VALSET_SIM = dict(module="MC_Hub.tla", cfg="MC_ValsetSim.cfg", family="valset", 
 REGISTRY_ENUM = dict(module="MC_Hub.tla", cfg="MC_Registry.cfg", family="valset", timeout=1500, sample=(2500, 0),
                      prefix=[{"k": "Begin", "dt": 1}], quick={}, thorough={})
 
+ORACLE_MC = dict(module="MC_Oracle.tla", cfg="MC_Oracle.cfg", timeout=1500, quick={"MaxLen": "6"}, thorough={"MaxLen": "8"})
+ORACLE_SIM = dict(module="MC_Oracle.tla", cfg="MC_OracleSim.cfg", family="oracle", num=(60, 800), depth=240, timeout=3000,
+                  quick={"MaxLen": "60"}, thorough={"MaxLen": "80"}, script_cfg="cfg_oracle.json")
+
 PROPS = {
+    "C18": dict(mc=[ORACLE_MC], sim=[ORACLE_SIM], static=["oracle*.ndjson"], trace=("TraceOracle.tla", "TraceOracle.cfg"),
+                watch=["C18:", "conf:or"],
+                need={"Price/ok": 10, "Price/err": 2, "Holders/ok": 5, "PricesChanged": 2, "HoldersChanged": 1, "AttWithSeveralVoters": 5}),
     "C19": dict(mc=[], sim=[FEES_SIM], static=["fees*.ndjson", "c05_zero_share.ndjson"],
                 watch=["C19:", "conf:fr", "conf:bal", "conf:pool"],
                 need={"ExtExec/ok": 3, "Claim/ok": 9, "End/ok": 5}),
@@ -401,7 +408,8 @@ def check_hub_property(prop, tier, seed, replay_file=None):
         raise Infra("no behaviours to replay")
 
     trace, rt = replay(vh, scripts, workdir)
-    rep = validate(trace, workdir, dev)
+    tmod, tcfg = plan.get("trace", ("Trace.tla", "Trace.cfg"))
+    rep = validate(trace, workdir, dev, module=tmod, cfgname=tcfg)
     log("[%s] replayed %d behaviours on the real application (%.0fs); TLC validated %d trace lines (%.0fs)" % (prop, len(scripts), rt, rep["lines"], rep["wall"]))
 
     # anti-vacuity
@@ -654,7 +662,311 @@ def check_c20(prop, tier, seed, replay_file=None):
     return rc
 
 
-EXTRA_PROPS = {"C14": check_c14, "C20": check_c20}
+# ------------------------------------------------------------------------------------------- C06 determinism
+def check_c06(prop, tier, seed, replay_file=None):
+    t0 = time.time()
+    workdir = os.path.join(WORK, prop)
+    shutil.rmtree(workdir, ignore_errors=True)
+    os.makedirs(workdir)
+    dev = current_dev()
+    vh, bt = build_harness()
+    dst = os.path.join(workdir, "Replicas.cfg")
+    tlc_cfg(os.path.join(SPEC, "Replicas.cfg"), dst, {"R": "3" if tier == "quick" else "4", "MaxLog": "3" if tier == "quick" else "4"})
+    rc, txt, dt, out = tlc("Replicas.tla", dst, workdir, 600)
+    gen, dist = parse_counts(txt)
+    if "No error has been found" not in txt:
+        raise Infra("Replicas design check failed, see " + out)
+    scripts = []
+    if replay_file:
+        scripts = [json.loads(l) for l in open(replay_file) if l.strip()]
+    else:
+        for spec in (ECON_SIM, ECON2_SIM, FEES_SIM, ORACLE_SIM, VALSET_SIM):
+            sp = dict(spec)
+            sp["num"] = (12, 200)
+            s, st = simulate_scripts(sp, workdir, tier, dev, seed)
+            log("[%s] simulation %s: %d behaviours" % (prop, spec["cfg"], len(s)))
+            scripts += s
+        scripts += load_static(["econ*.ndjson", "fees*.ndjson", "valset*.ndjson"])
+    sp = os.path.join(workdir, "scripts.ndjson")
+    with open(sp, "w") as f:
+        for sc in scripts:
+            f.write(json.dumps(sc) + "\n")
+    reps = 3 if tier == "quick" else 5
+    obs = os.path.join(workdir, "obs.ndjson")
+    p, rt = run([vh, "replicas", "-scripts", sp, "-out", obs, "-r", str(reps)], 3000)
+    if p.returncode != 0:
+        sys.stdout.write(p.stdout.decode(errors="replace")[-2000:])
+        raise Infra("harness replicas failed")
+    # a second OS process: observations must be byte-identical to the first process's
+    obs2 = os.path.join(workdir, "obs2.ndjson")
+    p, rt2 = run([vh, "replicas", "-scripts", sp, "-out", obs2, "-r", "1" if tier == "quick" else "2"], 3000)
+    if p.returncode != 0:
+        raise Infra("harness replicas (second process) failed")
+    first = {}
+    for l in open(obs):
+        j = json.loads(l)
+        first[(j["id"], j["i"])] = j
+    merged = os.path.join(workdir, "merged.ndjson")
+    with open(merged, "w") as f:
+        for l in open(obs2):
+            j = json.loads(l)
+            k = (j["id"], j["i"])
+            if k in first:
+                first[k]["obs"] = first[k]["obs"] + j["obs"]
+        for k in first:
+            f.write(json.dumps(first[k]) + "\n")
+    rep = validate(merged, workdir, dev, name="replicas", module="TraceReplicas.tla", cfgname="TraceReplicas.cfg")
+    log("[%s] %d behaviours x %d replicas in-process + a second OS process; TLC compared %d step observations (%d block ends)" % (prop, len(scripts), reps, rep["stat"]["steps"], rep["stat"]["ends"]))
+    if not replay_file and rep["stat"]["ends"] < 50:
+        raise Infra("vacuous run")
+    rc = 0
+    if rep["viol"]:
+        rdir = os.path.join(ROOT, "evidence", "replay")
+        os.makedirs(rdir, exist_ok=True)
+        v = sorted(rep["viol"], key=lambda x: (x[0], x[1]))[0]
+        path = os.path.join(rdir, "%s-%s.ndjson" % (prop, re.sub(r"[^A-Za-z0-9_.-]", "_", v[0])))
+        with open(path, "w") as f:
+            f.write(json.dumps(script_of(scripts, v[0])) + "\n")
+        log("  replicas disagree first at behaviour %s step %d (%s); %d disagreeing steps" % (v[0], v[1], v[3], len(rep["viol"])))
+        log("VIOLATION property=%s replay=%s" % (prop, path))
+        rc = 1
+    coverage = dict(states=dist, transitions=gen, traces_validated_against_impl=len(scripts),
+                    samples=[dict(id=s["id"], acts=s["acts"][:8]) for s in scripts[:2]],
+                    replicas_in_process=reps, second_process_replicas=rep["stat"]["replicas"] - reps,
+                    steps_compared=rep["stat"]["steps"], block_ends_compared=rep["stat"]["ends"], exhaustive=False,
+                    rule="TLC-generated behaviours of the econ / fees / oracle / valset families (several tokens in the pool at auto-batch blocks, several chains with "
+                         "pending events, conflicting holder lists) each executed on fresh replicas; per step the result, app hash, hash of all ABCI responses and a raw digest "
+                         "of the mhub2, oracle and bank stores must agree")
+    write_evidence(prop, tier, seed, coverage, time.time() - t0, len(rep["viol"]),
+                   ["Go map iteration order is randomised per range statement, so replicas in one process exercise different orders; scheduling nondeterminism of goroutines is not forced"])
+    return rc
+
+
+# ------------------------------------------------------------------------------------------- C15 genesis round trip
+def check_c15(prop, tier, seed, replay_file=None):
+    t0 = time.time()
+    workdir = os.path.join(WORK, prop)
+    shutil.rmtree(workdir, ignore_errors=True)
+    os.makedirs(workdir)
+    dev = current_dev()
+    vh, bt = build_harness()
+    scripts = []
+    if replay_file:
+        scripts = [json.loads(l) for l in open(replay_file) if l.strip()]
+    else:
+        for spec in (ECON_SIM, FEES_SIM, ORACLE_SIM, VALSET_SIM):
+            sp = dict(spec)
+            sp["num"] = (10, 120)
+            s, st = simulate_scripts(sp, workdir, tier, dev, seed)
+            scripts += s
+        scripts += load_static(["econ_basic.ndjson", "valset_rereg.ndjson", "fees*.ndjson"])
+    sp = os.path.join(workdir, "scripts.ndjson")
+    with open(sp, "w") as f:
+        for sc in scripts:
+            f.write(json.dumps(sc) + "\n")
+    out = os.path.join(workdir, "genesis.ndjson")
+    cmd = [vh, "genesis", "-scripts", sp, "-out", out] + (["-pick", str(seed)] if tier == "quick" else ["-every", "2"])
+    p, rt = run(cmd, 3000)
+    if p.returncode != 0:
+        sys.stdout.write(p.stdout.decode(errors="replace")[-2000:])
+        raise Infra("harness genesis failed")
+    rep = validate(out, workdir, dev, name="genesis", module="Genesis.tla", cfgname="Genesis.cfg")
+    st = rep["stat"]
+    log("[%s] %d export/import round trips (%d with pending transfers, batches, votes or signatures), %d continuation steps compared" % (prop, st["roundtrips"], st["nonempty"], st["conts"]))
+    if not replay_file and (st["roundtrips"] < 10 or st["nonempty"] < 3 or st["conts"] < 50):
+        raise Infra("vacuous run")
+    known_comp = {}
+    for k in known_findings()["findings"]:
+        if k["property"] == prop and k["status"] == "known":
+            for c in k["checks"]:
+                if c[0] == "C15:Lost":
+                    known_comp[c[1]] = k
+    lost = collections.defaultdict(set)      # (id, boundary) -> lost components
+    for v in rep["viol"]:
+        if v[3] == "C15:Lost":
+            lost[(v[0], v[1])].add(v[4].split(":")[0])
+    fresh, hits = [], collections.Counter()
+    for v in rep["viol"]:
+        comp = v[4].split(":")[0]
+        key = (v[0], v[1])
+        if v[3] == "C15:Lost":
+            if comp in known_comp:
+                hits[known_comp[comp]["id"]] += 1
+            else:
+                fresh.append(v)
+        elif v[3] == "C15:ContinuationDiverged":
+            # a divergence after an export that lost only known components is the consequence of the known finding
+            if lost[key] and lost[key] <= set(known_comp):
+                hits["(continuations after a lossy export)"] += 1
+            else:
+                fresh.append(v)
+        else:
+            fresh.append(v)
+    for k in known_findings()["findings"]:
+        if k["property"] == prop and k["status"] == "known" and hits.get(k["id"]):
+            log("KNOWN-FINDING: property=%s %s (%s; hit %d times in this run)" % (prop, k["what"], k["id"], hits[k["id"]]))
+    rc = 0
+    if fresh:
+        rdir = os.path.join(ROOT, "evidence", "replay")
+        os.makedirs(rdir, exist_ok=True)
+        v = fresh[0]
+        path = os.path.join(rdir, "%s-%s.ndjson" % (prop, re.sub(r"[^A-Za-z0-9_.-]", "_", v[0])))
+        with open(path, "w") as f:
+            f.write(json.dumps(script_of(scripts, v[0])) + "\n")
+        for (c, d), n in collections.Counter((v[3], v[4]) for v in fresh).most_common(8):
+            log("  %s [%s] x%d" % (c, d, n))
+        log("VIOLATION property=%s replay=%s" % (prop, path))
+        rc = 1
+    coverage = dict(states=rep["tlc_states"] or 1, transitions=rep["lines"] or 1, traces_validated_against_impl=st["roundtrips"],
+                    samples=[dict(id=s["id"], acts=s["acts"][:8]) for s in scripts[:2]],
+                    roundtrips=st["roundtrips"], roundtrips_with_pending_state=st["nonempty"], continuation_steps=st["conts"],
+                    components_compared=["pool", "bat", "ss", "cc", "loss", "votes", "lnv", "sigs", "keys", "cnt.*", "bal", "sup", "st", "fr", "tok", "stk", "tot", "or.*"],
+                    known_components_lost=sorted(known_comp), known_findings_hit=dict(hits), exhaustive=False,
+                    rule="TLC-generated behaviours; at a block boundary the real ExportAppStateAndValidators output is fed to InitChain of a fresh application; the projected "
+                         "state is compared component by component, then the rest of the behaviour runs on both applications and is compared after every step")
+    write_evidence(prop, tier, seed, coverage, time.time() - t0, len(fresh),
+                   ["the abstract state (projection) is what 'everything needed to continue' is measured by"])
+    return rc
+
+
+# ------------------------------------------------------------------------------------------- C05 totality of block processing
+P255 = str(2 ** 255)
+MAX256 = str(2 ** 256 - 1)
+
+
+def c05_script(i, c, cfgs):
+    """a minimal history that gets the input class combination applied inside a block"""
+    VAL = {"zero": "0", "one": "1", "small": "50", "p255": P255, "max256": MAX256, "neg": "-5", "above": "60", "hundred": "100",
+           "big": "1000000000000000000000", "some": "7"}
+    chain = c["chain"]
+    hubtok = "t1" if chain == "ethereum" else "1"
+    usdtok = "t4" if chain == "ethereum" else "12"
+    tokmap = {"known": hubtok, "known2": usdtok, "unknown": "tX" if chain == "ethereum" else "99", "prefix": "tY" if chain == "ethereum" else "120"}
+
+    def claims(ev):
+        return [{"k": "Claim", "by": v, "chain": chain, "ev": ev} for v in ("v1", "v2", "v3")]
+    acts = [{"k": "Begin", "dt": 1}]
+    cfg = cfgs[c.get("world", "plain")]
+    t = c["t"]
+    if t == "Deposit":
+        rcv = {"ext": "e8", "hubacct": "a3", "noprefix": "raw:" + "ab" * 20}[c["rcv"]]
+        ev = {"t": "Deposit", "n": 1, "tok": tokmap[c["tok"]], "amt": VAL[c["amt"]], "fee": VAL[c["fee"]], "snd": "e7", "rch": c["rch"], "rcv": rcv, "eh": 2, "txh": "x1"}
+        acts += claims(ev)
+    elif t == "ToHub":
+        ev = {"t": "ToHub", "n": 1, "tok": tokmap[c["tok"]], "amt": VAL[c["amt"]], "snd": "e7", "rcv": {"hubacct": "a3", "module": "mod", "tmp": "tmp"}[c["rcv"]], "eh": 2, "txh": "x1"}
+        acts += claims(ev)
+    elif t == "Exec":
+        d = {"t": "Deposit", "n": 1, "tok": hubtok, "amt": "40", "fee": "0", "snd": "e7", "rch": "hub", "rcv": "a3", "eh": 2, "txh": "x1"}
+        denom = "hub" if c["tok"] == "known" else "usd"
+        acts += claims(d) + [{"k": "End"}, {"k": "Begin", "dt": 1},
+                             {"k": "Send", "from": "a1", "chain": chain, "dest": "e5", "denom": denom, "amt": VAL[c["sendamt"]], "fee": VAL[c["sendfee"]]},
+                             {"k": "ReqBatch", "from": "a1", "chain": chain, "denom": denom}, {"k": "End"}, {"k": "Begin", "dt": 1}]
+        ev = {"t": "Exec", "n": 2, "tok": tokmap[c["tok"]], "bn": 1 if c["batch"] == "existing" else 7, "eh": 3, "txh": "x2", "fp": VAL[c["fp"]]}
+        if c["fpr"] == "ext":
+            ev["fpr"] = "e9"
+        acts += claims(ev)
+    elif t == "SSExec":
+        m = {"empty": [], "one": [["e1", [1, 0]]], "dup": [["e1", [1, 0]], ["e1", [2, 0]]], "hugepower": [["e1", "18446744073709551615"], ["e2", "18446744073709551615"]]}[c["members"]]
+        acts += claims({"t": "SSExec", "n": 1, "ssn": 1, "eh": 2, "m": m, "txh": "x1"})
+    elif t == "CCExec":
+        acts += claims({"t": "CCExec", "n": 1, "scope": "scope", "in": 1, "eh": 2, "txh": "x1"})
+    elif t == "Send":
+        acts += [{"k": "Send", "from": "a1", "chain": chain, "dest": "e5", "denom": "hub", "amt": VAL[c["amt"]], "fee": VAL[c["fee"]]},
+                 {"k": "ReqBatch", "from": "a1", "chain": chain, "denom": "hub"}]
+    acts += [{"k": "End"}, {"k": "Blocks", "n": 2}]
+    return {"id": "tot-%d" % i, "family": "totality", "cfg": cfg, "acts": acts}
+
+
+def check_c05(prop, tier, seed, replay_file=None):
+    import random
+    t0 = time.time()
+    workdir = os.path.join(WORK, prop)
+    shutil.rmtree(workdir, ignore_errors=True)
+    os.makedirs(workdir)
+    dev = current_dev()
+    vh, bt = build_harness()
+    # 1. the iterator lock protocol: no dead-lock for the module's iteration pattern, for every pool size / expiry count around the channel capacity
+    pattern = "nested" if "RefundSweepNestedIter" in dev else "collect"
+    si_states = 0
+    si_runs = []
+    for B in (1, 2) if tier == "quick" else (1, 2, 3):
+        for N in range(0, B + 5):
+            for E in range(0, min(N, 4) + 1):
+                cfgp = os.path.join(workdir, "StoreIter-%d-%d-%d.cfg" % (B, N, E))
+                open(cfgp, "w").write("SPECIFICATION Spec\nCONSTANTS\n  B = %d\n  N = %d\n  E = %d\n  Pattern = \"%s\"\nPROPERTY Terminates\n" % (B, N, E, pattern))
+                rc, txt, dt, out = tlc("StoreIter.tla", cfgp, workdir, 120, workers="1")
+                g, d = parse_counts(txt)
+                si_states += d
+                if "No error has been found" not in txt:
+                    raise Infra("StoreIter: the %s pattern can dead-lock (B=%d N=%d E=%d) although the code is believed to use it safely; see %s" % (pattern, B, N, E, out))
+                si_runs.append((B, N, E))
+    log("[%s] StoreIter.tla: pattern '%s' terminates for %d (capacity, entries, expired) configurations, %d states" % (prop, pattern, len(si_runs), si_states))
+    # 2. input class enumeration
+    cases_file = os.path.join(workdir, "cases.json")
+    rc, txt, dt, out = tlc("Totality.tla", os.path.join(SPEC, "Totality.cfg"), workdir, 600, env={"VERIF_OUT": cases_file}, workers="2")
+    gen, dist = parse_counts(txt)
+    if "No error has been found" not in txt or not os.path.exists(cases_file):
+        raise Infra("Totality enumeration failed, see " + out)
+    cases = json.load(open(cases_file))
+    base = json.load(open(os.path.join(ROOT, "scripts", "cfg_keys_prices.json")))
+    base["users"]["a1"]["hub"] = "1000000000000000000000000"
+    plain = dict(base); plain.pop("keys", None); plain.pop("prices", None)
+    keys = dict(base); keys.pop("prices", None)
+    cfgs = {"plain": plain, "keys+prices": base, "keys": keys}
+    idx = list(range(len(cases)))
+    if replay_file:
+        scripts = [json.loads(l) for l in open(replay_file) if l.strip()]
+    else:
+        if tier == "quick":
+            random.Random(seed).shuffle(idx)
+            idx = sorted(idx[:900])
+        scripts = [c05_script(i, cases[i], cfgs) for i in idx]
+        scripts += load_static(["bulk*.ndjson", "c05*.ndjson"])
+    sp = os.path.join(workdir, "scripts.ndjson")
+    with open(sp, "w") as f:
+        for sc in scripts:
+            f.write(json.dumps(sc) + "\n")
+    tp = os.path.join(workdir, "trace.ndjson")
+    p, rt = run([vh, "run", "-scripts", sp, "-out", tp, "-nopost"], 3000)
+    if p.returncode != 0:
+        sys.stdout.write(p.stdout.decode(errors="replace")[-2000:])
+        raise Infra("harness run failed")
+    rep = validate(tp, workdir, dev, name="total", module="TraceTotal.tla", cfgname="TraceTotal.cfg")
+    st = rep["stat"]
+    log("[%s] %d of %d input class combinations (+ bulk scenarios) executed on the real application: %d block operations, %d failing transactions" % (prop, len(scripts), len(cases), st["blockops"], st["txerr"]))
+    if not replay_file and st["blockops"] < 1000:
+        raise Infra("vacuous run")
+    fresh = [v for v in rep["viol"] if not match_known(prop, v[2], v[3])]
+    hits = collections.Counter(match_known(prop, v[2], v[3])["id"] for v in rep["viol"] if match_known(prop, v[2], v[3]))
+    for k in known_findings()["findings"]:
+        if hits.get(k["id"]):
+            log("KNOWN-FINDING: property=%s %s (%s; hit %d times in this run)" % (prop, k["what"], k["id"], hits[k["id"]]))
+    rc = 0
+    if fresh:
+        rdir = os.path.join(ROOT, "evidence", "replay")
+        os.makedirs(rdir, exist_ok=True)
+        v = sorted(fresh)[0]
+        path = os.path.join(rdir, "%s-%s.ndjson" % (prop, re.sub(r"[^A-Za-z0-9_.-]", "_", v[0])))
+        with open(path, "w") as f:
+            f.write(json.dumps(script_of(scripts, v[0])) + "\n")
+        bykind = collections.Counter(v[3] for v in fresh)
+        log("  block processing failed in %d behaviours: %s" % (len({v[0] for v in fresh}), dict(bykind)))
+        sc = script_of(scripts, v[0])
+        log("  first: %s step %d; case %s" % (v[0], v[1], json.dumps(cases[int(v[0][4:])]) if v[0].startswith("tot-") else ""))
+        log("VIOLATION property=%s replay=%s" % (prop, path))
+        rc = 1
+    coverage = dict(states=dist + si_states, transitions=gen + si_states, traces_validated_against_impl=len(scripts),
+                    samples=[cases[idx[0]], scripts[0]["acts"][:5]], input_class_combinations=len(cases), combinations_executed=len(scripts),
+                    block_operations=st["blockops"], failing_transactions=st["txerr"], storeiter_configurations=len(si_runs),
+                    exhaustive=(tier != "quick"), known_findings_hit=dict(hits),
+                    rule="cross product of input classes per event type / message (Totality.tla), each as a minimal history with all three validators voting; "
+                         "plus bulk scenarios (>= 67 pool entries written in one block with >= 2 expiries); the lock protocol of the cache store is model checked for dead-lock")
+    write_evidence(prop, tier, seed, coverage, time.time() - t0, len(fresh),
+                   ["a hang is detected by a 20 s watchdog per block operation", "every other check also evaluates C05:BlockOpsTotal on its behaviours"])
+    return rc
+
+
+EXTRA_PROPS = {"C14": check_c14, "C20": check_c20, "C06": check_c06, "C15": check_c15, "C05": check_c05}
 
 
 def main(argv):
